@@ -35,7 +35,9 @@ try:
     for name in sorted(os.listdir(V+"/seeded")) if os.path.isdir(V+"/seeded") else []:
         meta=json.load(open(V+"/seeded/%s/meta.json"%name)); pid=meta["property"]
         if want and pid not in want: continue
-        a=sh("git","-C",wt,"apply",V+"/seeded/%s/patch.diff"%name)
+        pf=V+"/seeded/%s/patch_rebased.diff"%name
+        if not os.path.exists(pf): pf=V+"/seeded/%s/patch.diff"%name
+        a=sh("git","-C",wt,"apply",pf)
         if a.returncode!=0:
             results.append((pid,"seeded/"+name,"PATCH DOES NOT APPLY "+a.stderr.strip()[:80])); continue
         viol,r=run_check(pid)
